@@ -132,7 +132,7 @@ def leg_dispatch(run):
     from clastic import Application, Response
     from werkzeug.test import create_environ, run_wsgi_app
     got = {}
-    pats = ['/a/<x>', '/a/<x>/<y?>', '/r/<r*>', '/r2/<r+>/end', '/n/<n:int>/<s>', u'/caf\xe9/<x>']
+    pats = ['/a/<x>', '/a/<x>/<y?>', '/r/<r*>', '/r2/<r+>/end', '/n/<n:int>/<s>', u'/caf\xe9/<x>', '/b/<x>/', '/bb/<r+>/']
 
     def ep(x=None, y=None, r=None, n=None, s=None):
         got['kw'] = dict((k, v) for k, v in (('x', x), ('y', y), ('r', r), ('n', n), ('s', s)) if v is not None)
@@ -143,6 +143,8 @@ def leg_dispatch(run):
     for a_ in segs:
         paths += [u'/a/' + a_, u'/a/' + a_ + u'/' + segs[(segs.index(a_) + 1) % len(segs)], u'/r/' + a_ + u'/x/' + a_,
                   u'/r2/' + a_ + u'/end', u'/n/7/' + a_, u'/caf\xe9/' + a_]
+    # '.' and '..' are plain str segments of the mini-language, also in front of a trailing slash
+    paths += ['/b/./', '/b/../', '/bb/./x/', '/bb/x/../', '/a/.', '/a/..', '/r/./..']
     for path in paths:
         env = create_environ('/')
         env['PATH_INFO'] = path.encode('utf8').decode('latin1')
